@@ -4,6 +4,7 @@ import (
 	"context"
 	"encoding/xml"
 	"fmt"
+	"io"
 	"strings"
 	"time"
 
@@ -243,6 +244,10 @@ func runC07(rc *RC) {
 			if errAt < 0 {
 				errAt = in.idx
 			}
+			if ch.Chance("handler", 1, 2) {
+				// what a handler that decodes its payload returns when the element ends early
+				return fmt.Errorf("harness: decoding payload: %w", io.EOF)
+			}
 			return errBoom
 		}
 		return nil
@@ -368,6 +373,10 @@ func runC07(rc *RC) {
 			continue
 		}
 		if errAt >= 0 && in.idx >= errAt {
+			if in.idx == errAt {
+				rc.Evals["C07.c4"]++
+				rc.Check("C07.c4", "handler-error-did-not-end-serve", e.ServeDone && e.ServeErr != nil, "the handler returned an error on %s but Serve returned %v (done=%v): no reply and no stream error", in.xml, e.ServeErr, e.ServeDone)
+			}
 			continue // c4: the stream was terminated with a stream error
 		}
 		if e.ServeDone && e.ServeErr != nil && in.idx >= invocations-1 {
